@@ -115,6 +115,13 @@ impl ByzState {
         let is_client = self.is_client;
         let tp = self.victim_params();
         let c = self.conns.entry(conn).or_default();
+        match space {
+            Space::App => c.app_packets += 1,
+            _ => c.hs_packets += 1,
+        }
+        // The rule is evaluated on what earlier packets established; the honest content of
+        // this packet is learned afterwards (the offending frame is placed in front of it).
+        let result = Self::evaluate(&self.rules, is_client, tp, c, conn, space, payload, capacity);
         // learn from the honest payload
         if let Ok((frames, _)) = wire::parse_frames(payload) {
             if space == Space::App {
@@ -127,20 +134,34 @@ impl ByzState {
                                 e.1 = Some(off + *len as u64);
                             }
                         }
+                        Frame::ResetStream { id, final_size, .. } => {
+                            let e = c.sent.entry(*id).or_insert((0, None));
+                            e.1 = Some(*final_size);
+                        }
                         Frame::NewConnectionId { seq, cid, .. } => c.own_new_cid.push((*seq, cid.clone())),
                         _ => {}
                     }
                 }
             }
         }
-        match space {
-            Space::App => c.app_packets += 1,
-            _ => c.hs_packets += 1,
-        }
+        result
+    }
+
+    #[allow(clippy::too_many_arguments)]
+    fn evaluate(
+        rules: &[ByzRule],
+        is_client: bool,
+        tp: Option<wire::PeerParams>,
+        c: &mut ConnState,
+        conn: u64,
+        space: Space,
+        payload: &[u8],
+        capacity: usize,
+    ) -> Option<(Vec<u8>, String)> {
         if c.fired {
             return None;
         }
-        let rule = self.rules.iter().find(|r| r.conn as u64 == conn || r.conn == u32::MAX)?.clone();
+        let rule = rules.iter().find(|r| r.conn as u64 == conn || r.conn == u32::MAX)?.clone();
         let in_hs_rule = matches!(rule.kind, ByzKind::AppFrameInHandshakeSpace { .. });
         if in_hs_rule {
             let want_initial = matches!(rule.kind, ByzKind::AppFrameInHandshakeSpace { initial: true });
